@@ -149,6 +149,25 @@ CHECKS = {
                 note="trusted base: the writer (mc/ref/writer.py); python float parsing; well-formedness assumptions "
                      "listed in the evidence",
                 technique="exhaustive enumeration of file layouts against a writer model + explicit-state search over call histories"),
+    "C12": dict(engine=E2, ref="5/C12",
+                text="States are rigidly moved images of seed systems (basis, points, charges, moment origin); transitions "
+                     "are all 48 signed axis permutations and three generic proper/improper rotations combined with "
+                     "three translation classes, composed to depth 2; on every edge every public quantity must obey its "
+                     "transformation law (representation matrices on basis indices, vector / tensor / axial-vector "
+                     "rules, d x p shift, invariance of scalars).",
+                note="trusted base: representation matrices from independent polynomial substitution and the reference "
+                     "harmonics (mc/ref/rep.py); differential oracle between two runs of the implementation",
+                technique="explicit-state BFS over rigid motions (complete finite group) with covariance-law oracle"),
+    "C19": dict(engine=E3, ref="5/C19",
+                text="Breadth-first search over call sequences on shared objects with an alphabet of about 65 operations "
+                     "(every public function with valid arguments, one invalid variant each, parameter updates, "
+                     "re-normalisation), run until no new state appears, so the invariants (arguments bit-identical, "
+                     "numpy error state / warnings filters / module globals restored on return and raise, repeated and "
+                     "path-independent results, unit normalisation after renormalisation) are established for call "
+                     "sequences of every length over that alphabet, from several initial error states.",
+                note="trusted base: the state key (bit-exact snapshot of every shared object, global numerical state and "
+                     "gbasis module globals); python deepcopy",
+                technique="explicit-state search over call histories to closure with invariants on every transition"),
 }
 
 NOT_YET = {}
